@@ -57,8 +57,25 @@ NDIRECT = {"quick": 140, "thorough": 2400}
 NPROG = {"quick": 40, "thorough": 700}
 
 
+EXTREME = [
+    # tiny moments: the documented rounding is to ~20 *significant* digits, so these must not collapse to 0
+    {"kind": "trig", "fam": "Normal", "ps": ["0", "100"], "a": 0, "b": 0, "c": 1, "d": 0, "exact": False},     # exp(-50)
+    {"kind": "trig", "fam": "Normal", "ps": ["0", "64"], "a": 0, "b": 0, "c": 1, "d": 0, "exact": False},      # exp(-32)
+    {"kind": "trig", "fam": "Normal", "ps": ["3", "121"], "a": 0, "b": 1, "c": 0, "d": 0, "exact": False},
+    {"kind": "const", "func": "Exp", "arg": "-60", "arg_style": "int", "k": 1, "exact": False},
+    {"kind": "const", "func": "Exp", "arg": "-25", "arg_style": "int", "k": 3, "exact": False},
+    {"kind": "exp", "fam": "Normal", "ps": ["-80", "1"], "a": 0, "b": 0, "c": 0, "d": 1, "exact": False},       # exp(-79.5)
+    {"kind": "trig", "fam": "Laplace", "ps": ["0", "1000000"], "a": 0, "b": 0, "c": 1, "d": 0, "exact": False},  # 1/(1+1e12)
+]
+
+
 def generate(seed, tier):
     cases = []
+    for j, c in enumerate(EXTREME):
+        c = dict(c)
+        c["id"] = f"x-{j}"
+        c["features"] = ["extreme-tiny-moment", "default-mode"]
+        cases.append(c)
     nd, npg = NDIRECT[tier], NPROG[tier]
     # interleave so that the deadline cuts both kinds evenly
     i = 0
